@@ -29,6 +29,23 @@ static uint8_t* mkbuf(size_t cap, const uint8_t* init, size_t n) { uint8_t* b = 
 int main(void)
 {
     setvbuf(stdout, NULL, _IOFBF, 1 << 16);
+    /* real stack strings made by the library's own macro (constant capacities; restored before each use) */
+    static const struct { size_t cap; const char* init; } stk_tab[] = {
+        { 8, "abcdefgh" }, { 16, "0123456789abcdef" }, { 24, "0123456789abcdefghijklmn" }, { 8, "abc" },
+        { 7, "abcdefg" }, { 32, "" }, { 40, "0123456789abcdefghijklmnopqrstuvwxyzABCD" }, { 64, "" }, { 200, "" } };
+    GPString stk[9];
+    stk[0] = gp_str_on_stack(NULL, 8, "abcdefgh");
+    stk[1] = gp_str_on_stack(NULL, 16, "0123456789abcdef");
+    stk[2] = gp_str_on_stack(NULL, 24, "0123456789abcdefghijklmn");
+    stk[3] = gp_str_on_stack(NULL, 8, "abc");
+    stk[4] = gp_str_on_stack(NULL, 7, "abcdefg");
+    stk[5] = gp_str_on_stack(NULL, 32, "");
+    stk[6] = gp_str_on_stack(NULL, 40, "0123456789abcdefghijklmnopqrstuvwxyzABCD");
+    stk[7] = gp_str_on_stack(NULL, 64, "");
+    stk[8] = gp_str_on_stack(NULL, 200, "");
+    for (int i = 0; i < 9; i++)
+        if (gp_str_length(stk[i]) != strlen(stk_tab[i].init) || gp_str_capacity(stk[i]) != stk_tab[i].cap
+            || memcmp(stk[i], stk_tab[i].init, strlen(stk_tab[i].init))) { puts("STACK-MACRO-WRONG"); return 1; }
     GPString s = NULL; GPArena arena; GPAllocator* scope = NULL; int kind = 0; void* stackmem = NULL; uint8_t* neighbour = NULL;
     while (vp_next()) {
         if (vp_ntok < 2 || strcmp(vp_tok[0], "str")) { puts("bad-op"); continue; }
@@ -45,9 +62,14 @@ int main(void)
             else if (!strcmp(t[1], "tight")) { kind = 1; size_t c = cap > al ? cap : al; arena = gp_arena_new(sizeof(GPStringHeader) + c + 1); arena.growth_coefficient = 0.0; s = gp_str_new((GPAllocator*)&arena, cap, init); }
             else if (!strcmp(t[1], "scope")) { kind = 3; scope = gp_begin(0); s = gp_str_new(scope, cap, init); }
             else { kind = !strcmp(t[1], "stack") ? 4 : 5;
-                stackmem = malloc(sizeof(GPStringHeader) + cap + 1);
-                GPStringHeader* h = stackmem; *h = (GPStringHeader){ .length = 0, .capacity = cap, .allocator = kind == 4 ? gp_heap : NULL, .allocation = NULL };
-                s = (GPString)(h + 1); }
+                int m = -1;
+                for (int i = 0; i < 9; i++) if (stk_tab[i].cap == cap && strlen(stk_tab[i].init) == al && !memcmp(stk_tab[i].init, init, al)) m = i;
+                if (al > cap) { puts("bad-op"); free(init); free(a); continue; }
+                GPStringHeader* h;
+                if (m >= 0) { stackmem = NULL; h = (GPStringHeader*)stk[m] - 1; }     /* the macro's own object */
+                else { stackmem = malloc(sizeof(GPStringHeader) + cap + 1); h = stackmem; }
+                *h = (GPStringHeader){ .length = al, .capacity = cap, .allocator = kind == 4 ? gp_heap : NULL, .allocation = NULL };
+                s = (GPString)(h + 1); memcpy(s, init, al); }
             free(init);
             show(s);
         } else if (!strcmp(t[0], "end")) { puts("end"); fflush(stdout); }
